@@ -29,11 +29,15 @@ package auth
 //@     invariant forall k int :: {a.Channels[k]} 0 <= k && k <= rangeindex && k < len(a.Channels) ==> !reMatch(a.Channels[k], channel)
 
 // expired <==> the expiry instant lies before the clock reading taken by this call
+//@ ghost r4EExpiryClock time.Time
 //@ func (a *State) IsExpired() bool
 //@   props C11
 //@   requires a != nil
 //@   ensures[exact] result == (unixNano(a.Expires) < unixNano(lastNow))
-//@   modifies lastNow
+//@   modifies lastNow, r4EExpiryClock
+//   (round 4, area E) the clock reading this expiry check used: callers that read the clock again afterwards (the re-fetch in
+//   clientV2.IsAuthorized ends with time.Now() in auth.QueryAuthd) state "expired" against THIS reading.
+//@   onreturn r4EExpiryClock := lastNow
 
 // The same predicate over an Authorization value (an element of State.Authorizations).
 //@ pred hasPermV(v Authorization, permission string) :=
